@@ -1,8 +1,9 @@
 (* C17 -- Bundled genetic-code tables are complete and internally consistent. Statements only. *)
-From Coq Require Import List NArith Bool.
+From Coq Require Import List ZArith NArith Bool.
 From Coq.Strings Require Import Byte.
 Import ListNotations.
 From SV Require Import Text G_codes C05_Model Codes_Lemmas C17_Model G_gc_ids G_gc_prt G_gc_all C17_Lemmas.
+From SV Require Import C17_Gcode C17_GcodeLemmas.
 From SV Require Import C17_Convert C17_GenSpec C17_ConvSpec C17_ConvLemmas G_gc_prt_text G_gc_conv_all C17_ConvTables.
 Open Scope N_scope.
 
@@ -133,3 +134,38 @@ Example C17_gen_witness :
     g_astarts g = [bs "ATR"%bs; bs "RTG"%bs; bs "RTR"%bs] /\
     row x2a (g_ttinv g) = [bs "TAA"%bs; bs "TAG"%bs; bs "TGA"%bs].
 Proof. exact gen_witness. Qed.
+
+(* ---------------------------------------------------------------- the loader gcode() and its cache *)
+
+(* READ stability: once a call has returned an object, the same call returns the same object again after any sequence
+   of other calls (hits, loads, failing calls) - the cache only grows. What this cannot show: that nobody mutated the
+   object in between (aliases of a shared mutable Attr); that is tested by the history stream only. *)
+Theorem C17_gcode_reads_stable : forall ids ch n c o, snd (gcode_step ids ch n c) = inr o ->
+  forall cs m m', snd (gcode_step ids (fst (gcode_run ids (fst (gcode_step ids ch n c)) m cs)) m' c) = inr o.
+Proof. exact read_stable. Qed.
+Print Assumptions C17_gcode_reads_stable.
+
+(* from the empty cache, every call that returns an object returns a shipped table whose id is the requested one
+   (as a number: 1, 1.0, True - or as its decimal spelling); in particular a hit through == never gives another table *)
+Theorem C17_gcode_returns_requested : forall ids cs k c o,
+  nth_error cs k = Some c -> nth_error (snd (gcode_run ids [] 0 cs)) k = Some (inr o) ->
+  In (snd o) ids /\ requested (arg c) (snd o).
+Proof. exact (fun ids cs => run_results ids cs [] 0%nat (cache_inv_nil ids)). Qed.
+Print Assumptions C17_gcode_returns_requested.
+
+Theorem C17_gcode_unhashable : forall ids ch n c, arg c = KList -> gcode_step ids ch n c = (ch, inl (bs "TypeError"%bs)).
+Proof. exact step_unhashable. Qed.
+Print Assumptions C17_gcode_unhashable.
+
+(* gcode(tt=1.0) raises KeyError on a fresh cache but returns table 1 once gcode(tt=1) was called (wrapped keys compare
+   with ==); gcode(1.0) never hits (a positional int is stored unwrapped); gcode(), gcode(1), gcode(tt=1), gcode('1')
+   are four different objects *)
+Example C17_gcode_witness :
+  snd (gcode_run [1%N; 2%N] [] 0
+        [ {| c_form := FKw; c_key := KFloat 1%Z |}; {| c_form := FKw; c_key := KInt 1%Z |}; {| c_form := FKw; c_key := KFloat 1%Z |};
+          {| c_form := FPos; c_key := KInt 1%Z |}; {| c_form := FPos; c_key := KFloat 1%Z |}; {| c_form := FDefault; c_key := KNone |};
+          {| c_form := FPos; c_key := KStr (bs "1"%bs) |}; {| c_form := FPos; c_key := KStr (bs "Standard"%bs) |};
+          {| c_form := FPos; c_key := KList |}; {| c_form := FPos; c_key := KInt 1%Z |} ])
+  = [ inl (bs "KeyError"%bs); inr (1%nat, 1%N); inr (1%nat, 1%N); inr (3%nat, 1%N); inl (bs "KeyError"%bs); inr (5%nat, 1%N);
+      inr (6%nat, 1%N); inl (bs "KeyError"%bs); inl (bs "TypeError"%bs); inr (3%nat, 1%N) ].
+Proof. exact gcode_witness. Qed.
